@@ -1322,6 +1322,9 @@ func runC14(a vh.Args, o *vh.Oracle, r *vh.Result) error {
 	if err := c14CLIPut(a, o, r, rng.Fork()); err != nil {
 		return err
 	}
+	if err := c14SizeFamily(a, o, r, rng.Fork()); err != nil {
+		return err
+	}
 	return c14Framing(a, o, r, rng.Fork())
 }
 
@@ -1338,6 +1341,8 @@ func c14Replay(a vh.Args, o *vh.Oracle, r *vh.Result, c *c14Case) error {
 		return c14SSHPool(a, o, r, rng)
 	case "cliput":
 		return c14CLIPut(a, o, r, rng)
+	case "sizes":
+		return c14SizeFamily(a, o, r, rng)
 	case "script":
 		srv, err := c14NewScriptSrv()
 		if err != nil {
